@@ -807,6 +807,63 @@ def rule_J9(ctx, rule: str = "J9") -> None:
         ctx.proved(rule, name, mod.loc(fn), "numbers found for enum fields are kept (or go through try_value)")
 
 
+def rule_J10(ctx, rule: str = "J10") -> None:
+    """the values of an enum-valued map are rendered as enum values however they are represented: on every path of to_dict that
+    stores a value of such a map, the value went through _enum_to_json with the class the field declares - not only when it
+    happens to be an Enum instance (the pydantic dataclasses validate enum fields as plain ints; a branch that asks
+    isinstance(v, Enum) emits the number there and the name in the standard flavour)"""
+    mod = ctx.repo.mod(M_INIT)
+    fn = mod.func("Message.to_dict")
+    ctx.analysed("Message.to_dict")
+    inc = N(fn.args.args[2].arg)
+    b: Dict[Sym, Any] = {A(META, "group"): None}
+    b.update(type_binding("map"))
+    b[A(META, "map_types")] = ("string", "enum")
+    assume = {inc: True, ("op", "is", VALUE, C(None)): False, ("raises", ("AttributeError",), VALUE): False}
+    paths = interp_for(mod, bindings=b, assume=assume, fork_ifexp=True, auto_inline=False).run(fn)
+    ctx.count(len(paths))
+    bad = None
+    n = 0
+    for p in paths:
+        if p.outcome == "raise":
+            continue
+        # an enum value is neither a datetime / timedelta nor a message
+        if any(k[0] == "call" and k[1] == N("isinstance") and len(k[2]) == 2 and show(k[2][1]) in ("datetime", "timedelta", "Message") and v for k, v in p.valuation.items()):
+            continue
+        if any(k[0] == "call" and k[1] == N("hasattr") and v for k, v in p.valuation.items()):
+            continue
+        for e in p.events:
+            if e.kind == "store" and e.data[0][0] == "sub" and len(e.loops) >= 2 and e.data[0][1][0] in ("n", "dictd"):
+                n += 1
+                v = e.data[1]
+                through = any(t_[0] == "call" and dotted(t_[1]).split(".")[-1] == "_enum_to_json" for t_ in walk(v))
+                by_own_class = any(t_[0] == "call" and dotted(t_[1]).split(".")[-1] == "_enum_to_json" and t_[2] and t_[2][0][0] == "call" and dotted(t_[2][0][1]) == "type" for t_ in walk(v))
+                decided_instance = any(k[0] == "call" and k[1] == N("isinstance") and len(k[2]) == 2 and show(k[2][1]).split(".")[-1] in ("Enum", "IntEnum") for k in p.valuation)
+                if not through or by_own_class or decided_instance:
+                    bad = bad or (p, v, decided_instance)
+    name = "to_dict[map-value:enum]:whatever-the-representation"
+    if bad:
+        p, v, inst = bad
+        ctx.refuted(rule, name, show(v)[:60], mod.loc(fn), f"on {val_text(p.valuation)[-200:]} a value of an enum-valued map is stored as {show(v)[:80]}"
+                    + (": how it is rendered depends on whether the value is an Enum instance" if inst else ": not through _enum_to_json with the declared class")
+                    + " - under pydantic_dataclasses the values are plain ints and come out as numbers where the standard dataclasses emit names",
+                    "pydantic_dataclasses: M(status_by_shop={'north': Status.OPEN}).to_json()")
+    elif not n:
+        # the entries are built some other way (a comprehension, a converter chosen once per field): the weaker, structural form -
+        # nothing in to_dict (or the module-level helpers it calls) asks whether a value is an Enum instance
+        scope_ = [fn] + [mod.func(c_.func.id) for c_ in ast.walk(fn) if isinstance(c_, ast.Call) and isinstance(c_.func, ast.Name) and mod.has(c_.func.id)
+                         and isinstance(mod.defs[c_.func.id][0], ast.FunctionDef)]
+        tests = [c_ for f_ in scope_ for c_ in ast.walk(f_) if isinstance(c_, ast.Call) and isinstance(c_.func, ast.Name) and c_.func.id == "isinstance" and len(c_.args) == 2
+                 and any(isinstance(x, (ast.Name, ast.Attribute)) and ast.unparse(x).split(".")[-1] in ("Enum", "IntEnum") for x in ast.walk(c_.args[1]))]
+        if tests:
+            ctx.refuted(rule, name, ast.unparse(tests[0])[:60], mod.loc(tests[0]), f"`{ast.unparse(tests[0])}` makes the JSON form of an enum value depend on whether it is an Enum instance: the pydantic "
+                        "dataclasses hold enum values as plain ints", "pydantic_dataclasses: M(status_by_shop={'north': Status.OPEN}).to_json()")
+        else:
+            ctx.proved(rule, name, mod.loc(fn), "no decision on the representation of an enum value (entries not built by item stores: structural form)")
+    else:
+        ctx.proved(rule, name, mod.loc(fn), f"{n} stores, each through _enum_to_json with the declared class")
+
+
 def rule_J5(ctx) -> None:
     """JSON presence: what is set is emitted by to_dict whatever its value"""
     mod = ctx.repo.mod(M_INIT)
